@@ -86,6 +86,10 @@ Print Assumptions C12_history_list_complete.
    partial derivatives of the vector field get_run_func evaluates (J0 with respect to the state, one matrix per distinct delay
    symbol with respect to the delayed state), in the state ordering.  (C12_full_statement := forall s r, wf s = true ->
    jac_impl QcO s r = jac_spec QcO s r; the same over any commutative ring is C12_full_any_ring with pastJ0 = true.) *)
+(* Scope: model descriptions over the expression language of Jacobian.v (+ - * neg ^n, identity, sigmoid, absv, sign, exp, sin,
+   cos, tanh, maxi, mini; no division, no non-integer power, no sqrt/log).  jac_spec differentiates by dual numbers whose
+   function extension uses the rule table dfnI - the table the Impl's dfn uses as well; C12_rules_are_derivatives validates it
+   for the smooth functions at K = R, for absv/sign and max/min it is the stated convention. *)
 Theorem C12_full : C12_full_statement.
 Proof. exact full_statement. Qed.
 Print Assumptions C12_full.
